@@ -33,7 +33,7 @@ def hw_limit_probe(over):
 
 def main():
     ck = Check("C17", "proof")
-    lean = ck.lean_stage(["VelaVerif.Props.C17", "VelaVerif.Props.C17Src"])
+    lean = ck.lean_stage(["VelaVerif.Props.C17", "VelaVerif.Props.C17Src", "VelaVerif.Props.C12Raw"])
     common.setup_repo_path()
     from ethosu.vela import api, driver_actions
     from ethosu.vela.architecture_features import Accelerator, create_default_arch
@@ -192,8 +192,12 @@ def main():
     import fbwalk
     import pipe_common
     import pipeline
-    pouts = pipe_common.run_corpus(ck, 24 if not ck.thorough else 300, profiles=["mixed", "cpu", "weights", "elementwise"],
-                                   want=("out_model", "words"), corpus_first=False)
+    import raw_stream
+    # the same compilations written in the second output format as well (harness/raw_stream.py, design.d/RawOutput.md): cmd_data of
+    # the .npz must be the bytes of the command-stream tensor and must be accepted by the same Lean Spec
+    raw_stream.install()
+    pouts = pipe_common.run_corpus(ck, 160 if not ck.thorough else 600, profiles=["mixed", "cpu", "weights", "elementwise", "pattern"],
+                                   want={"out_model": True, "words": True, "extra": raw_stream.extra_c17}, corpus_first=False)
     preqs, pown = [], []
     acc_names = [a.value for a in accs]
     for o in pouts:
@@ -218,12 +222,14 @@ def main():
         if not a.endswith("ok=1"):
             ck.violation(f"Lean Spec rejects the command-stream tensor of a compiled network ({a}): network {o['idx']} {o['profile']} {o['opts']}",
                          {"profile": o["profile"], "seed": o["seed"], "index": o["idx"], "opts": o["opts"], "stream": k, "spec_verdict": a})
+    raw_stats = raw_stream.stage(ck, pouts, raw_stream.FIELDS_C17)
     nontrivial = len({(ai, len(ws)) for ai, ws in cases if len(ws) > 0}) + len({c for c in hdr_cases if c[1] > 0})
     ck.sample({"request": reqs[5][:200], "model": outs[5][:120], "implementation": reals[5][:120]})
     ck.sample({"request": reqs[-1], "model": outs[-1], "implementation": reals[-1]})
     ck.finish({
         "evaluations": len(reqs) + len(spec_reqs) + len(preqs),
         "pipeline_payloads_parsed": len(preqs),
+        **raw_stats,
         "distinct_nontrivial": nontrivial,
         "rule": "case = (accelerator, word list) through create_driver_payload or (words already present, length) through "
                 "emit_cmd_stream_header; non-trivial when the stream length > 0; distinct by (accelerator, length) / (have, length)",
